@@ -526,10 +526,13 @@ mutual
       · cases hs
     | .count name, b, w, w', h, ho, _, hs => by
       simp only [runStage] at hs
-      cases hs
-      refine ⟨h.setWork _ _ (Nat.le_succ _) ?_, ho⟩
-      simp only [allL, HV.all, allKids, Bool.and_true]
-      exact inR_tmp h.hb (Nat.lt_succ_self _)
+      split at hs
+      · cases hs
+        exact ⟨h.setWork _ _ (Nat.le_refl _) (by simp [allL]), ho⟩
+      · cases hs
+        refine ⟨h.setWork _ _ (Nat.le_succ _) ?_, ho⟩
+        simp only [allL, HV.all, allKids, Bool.and_true]
+        exact inR_tmp h.hb (Nat.lt_succ_self _)
     | .facet bs, b, w, w', h, ho, hno, hs => by
       simp only [runStage] at hs
       split at hs
